@@ -7,6 +7,9 @@ RANGE-0  "for every" means every: no loop (or comprehension) of an analysed func
 
 TRUTHY-0 an index is never tested by truthiness: a variable bound as the index of `enumerate(...)` / `range(...)` (directly or through a
          list built from enumerate) that is used as a bare condition (`if not step:`) treats the valid index 0 as "nothing".
+ROUND-0  round once, last: a value that was truncated (`int(e)`, `e // k`, `round(e)`, `math.floor/ceil/trunc`) is not scaled up afterwards
+         by a constant (`int(secs) * 1000`): the fraction the finer unit could express is gone (0.5 s becomes 0 ms).  The scale
+         belongs inside the truncation.  Recognised through one local (`v = int(e); return v * 1000`).
 NAME-0   delay names agree: a delay name (string constant) that a class cancels, checks or runs now is a name the class arms
          somewhere (its own methods or inherited ones).  A cancel under a name nobody arms cancels nothing.
 """
@@ -142,6 +145,67 @@ def index_truthiness(chk):
                    detail="`%s` is an enumerate / range index and is used as a bare condition in `%s`: the first item is treated as absent" % (
                        name, src(node.test)[:60]), construct=ident, text="index %s tested by truthiness" % name)
     chk.ob("TRUTHY-0", "no index variable of the analysed functions is tested by truthiness (%d functions)" % n, True, "mpf:1", nontrivial=False)
+
+
+_POS_ROUND = """
+def f(self, x, in_ms):
+    v = int(x.evaluate())
+    a = int(x) * 1000
+    return v * 1000 if in_ms else v
+"""
+_TRUNC = {"int", "round", "floor", "ceil", "trunc"}
+
+
+def _truncated_then_scaled(fn):
+    truncs = {}
+    for n in ast.walk(fn):
+        if isinstance(n, ast.Assign) and len(n.targets) == 1 and isinstance(n.targets[0], ast.Name):
+            truncs.setdefault(n.targets[0].id, []).append(n.value)
+
+    def is_trunc(e):
+        if isinstance(e, ast.Call) and src(e.func).split(".")[-1] in _TRUNC and e.args and not isinstance(e.args[0], ast.Constant):
+            # int(x) of something that may carry a fraction; int('12') / int(text) of strings cannot be told apart here: names only when
+            # the argument itself involves arithmetic or an evaluation
+            return True
+        if isinstance(e, ast.BinOp) and isinstance(e.op, ast.FloorDiv):
+            return True
+        return False
+
+    def scale(e):
+        if isinstance(e, ast.Constant) and isinstance(e.value, (int, float)) and not isinstance(e.value, bool) and e.value >= 10:
+            return True
+        if isinstance(e, ast.IfExp):
+            return scale(e.body) or scale(e.orelse)
+        return False
+    out = []
+    for n in ast.walk(fn):
+        if isinstance(n, ast.BinOp) and isinstance(n.op, ast.Mult):
+            for a, b in ((n.left, n.right), (n.right, n.left)):
+                if not scale(b):
+                    continue
+                if is_trunc(a):
+                    out.append(n)
+                elif isinstance(a, ast.Name) and len(truncs.get(a.id, [])) == 1 and is_trunc(truncs[a.id][0]):
+                    out.append(n)
+    return out
+
+
+def round_once_last(chk):
+    pos = ast.parse(_POS_ROUND).body[0]
+    if len(_truncated_then_scaled(pos)) != 2:
+        chk.pending_errors.append("ROUND-0 detector does not match its positive example")
+    n = 0
+    for ident in sorted(chk.funcs_analysed):
+        rel, qual = ident.split("::", 1)
+        f = chk.repo.try_func(rel, qual)
+        if f is None:
+            continue
+        n += 1
+        for node in _truncated_then_scaled(f.node):
+            chk.ob("ROUND-0", "a value is rounded once, after it was scaled to the unit it is used in", False, "%s:%d" % (rel, node.lineno),
+                   detail="`%s` scales a value that was already truncated: the fraction the finer unit could express is lost" % src(node)[:70],
+                   construct=ident, text="truncated then scaled " + src(node)[:50])
+    chk.ob("ROUND-0", "no analysed function scales a value up after truncating it (%d functions)" % n, True, "mpf:1", nontrivial=False)
 
 
 _ARM = {"add", "reset", "add_if_doesnt_exist"}
